@@ -29,6 +29,36 @@ thread_local! {
     static INSIDE: Cell<bool> = const { Cell::new(false) };
 }
 
+thread_local! {
+    /// virtual clock for this thread: 0 = real time; n > 0 = every clock read
+    /// returns real time + n * 10 s and increments n (any timed wait expires at once)
+    static VCLOCK: Cell<u64> = const { Cell::new(0) };
+}
+
+pub fn vclock_set(on: bool) {
+    let _ = VCLOCK.try_with(|v| v.set(if on { 1 } else { 0 }));
+}
+
+#[no_mangle]
+pub unsafe extern "C" fn clock_gettime(clk: libc::clockid_t, ts: *mut libc::timespec) -> c_int {
+    let r = libc::syscall(libc::SYS_clock_gettime, clk, ts) as c_int;
+    if r == 0 && !ts.is_null() {
+        let n = VCLOCK.try_with(|v| {
+            let n = v.get();
+            if n > 0 {
+                v.set(n + 1);
+            }
+            n
+        });
+        if let Ok(n) = n {
+            if n > 0 {
+                (*ts).tv_sec += (n as i64) * 10;
+            }
+        }
+    }
+    r
+}
+
 pub fn managed_tid() -> Option<usize> {
     MANAGED.try_with(|m| m.get()).ok().and_then(|v| if v > 0 { Some(v - 1) } else { None })
 }
